@@ -33,6 +33,19 @@ def lenform(ctx, t, depth=0):
     k = t.tag
     if k == 'mut':
         base, evs = t[1], t[2]
+        # a vector created empty and filled by exactly one push per iteration of a loop has that loop's length
+        b0 = base
+        while b0.tag == 'mut':
+            b0 = b0[1]
+        pushes = [e for e in evs if e.tag == 'ev' and e[1] == 'call' and e[2] == 'std::vec::Vec::<T, A>::push']
+        if b0.tag == 'call' and b0[1] in EMPTY_CTORS and len(pushes) == 1 and len(evs) == 1 and pushes[0][4] and b0[3]:
+            bkey, pbb = pushes[0][4][-1]
+            ckey, cbb = b0[3][-1]
+            body = ctx.facts.by_key.get(bkey)
+            if body is not None and ckey == bkey:
+                lps = [lp for lp in ctx.enclosing_loops(body, pbb) if cbb not in lp.blocks]
+                if len(lps) == 1 and lps[0].iter_term is not None and lps[0].driver_only_exit and ctx.every_iteration(body, lps[0], pbb):
+                    return lenform(ctx, lps[0].iter_term, depth + 1)
         off = 0
         for e in evs:
             if e.tag != 'ev' or e[1] != 'call':
